@@ -11,20 +11,21 @@ def buffer_invariants(C, store):
     C.invariant("len(self.%s) == len(self.fed) - self._waiting_for" % store, "len=fed-emitted")
 
 
-def unit():
-    U = Unit("C15/Buffer+PrintBuffer", "C15")
+def declare_buffer(U, payload=ANY):
+    """Buffer class + contracts in unit U (payload sort: ANY for C15, chunk lists for the pools)"""
     M = U.module("windpyutils/buffers.py")
-    # ------------------------------------------------------------------ Buffer
     # ghost fed: every (serial -> item) fed since the last flush; hi: strict upper bound of the serials fed.
     # view: emitted = [fed[i] | i < _waiting_for]
-    C = M.cls("Buffer", fields={"_storage": MapS(INT, ANY), "_waiting_for": INT}, ghost={"fed": MapS(INT, ANY), "hi": INT})
+    C = M.cls("Buffer", fields={"_storage": MapS(INT, payload), "_waiting_for": INT}, ghost={"fed": MapS(INT, payload), "hi": INT})
     buffer_invariants(C, "_storage")
+    ANY_ = payload
 
     m = C.method("__init__", {})
     m.modifies("self._storage", "self._waiting_for", "self.fed", "self.hi")
     m.ghost_exit("self.fed = empty_like(self.fed)")
     m.ghost_exit("self.hi = 0")
     m.ensures("len(self.fed) == 0 and self._waiting_for == 0")
+    m.ensures("forall(i, not (i in self.fed))", "nothing-fed-yet")
 
     m = C.method("waiting_for", {}, INT)
     m.ensures("result == self._waiting_for", "waiting_for=number-emitted")
@@ -33,7 +34,7 @@ def unit():
     m.ensures("result == len(self._storage)")
     m.ensures("result == len(self.fed) - self._waiting_for", "len=number-held-back")
 
-    m = C.method("__call__", {"i": INT, "x": ANY}, RefS("Buffer"))
+    m = C.method("__call__", {"i": INT, "x": ANY_}, RefS("Buffer"))
     m.raises("AttributeError", when="i < self._waiting_for")
     m.modifies("self._storage", "self.fed", "self.hi")
     m.ghost_exit("self.fed = mset(old(self.fed), i, x)")
@@ -42,7 +43,8 @@ def unit():
     m.ensures("same(self.fed, mset(old(self.fed), i, x))", "fed-extended")
     m.ensures("self._waiting_for == old(self._waiting_for)")
 
-    m = C.method("__iter__", {}, yields=ANY)
+    m = C.method("__iter__", {}, yields=ANY_)
+    m.reads("Buffer._storage", "Buffer._waiting_for")
     m.modifies("self._storage", "self._waiting_for")
     lp = m.loop(1).with_class_invariant()
     lp.invariant("old(self._waiting_for) <= self._waiting_for")
@@ -65,7 +67,12 @@ def unit():
     m.ghost_exit("self.fed = empty_like(self.fed)")
     m.ghost_exit("self.hi = 0")
     m.ensures("len(self.fed) == 0 and self._waiting_for == 0")
+    return M, C
 
+
+def unit():
+    U = Unit("C15/Buffer+PrintBuffer", "C15")
+    M, C = declare_buffer(U)
     for f in ("__init__", "waiting_for", "__len__", "__call__", "__iter__", "flush"):
         U.verify("Buffer", f)
 
